@@ -4,6 +4,9 @@ package rdb
 // carry every member exactly once, and the following key, EOF and footer are still found.
 //
 //vf:job C01 quick VF_C01_ChunkedHash members=2..4
+//vf:job C01 quick VF_C01_ChunkedHash members=2 short=1
+//vf:job C01 quick VF_C01_ChunkedHash members=2..3 short=2
+//vf:job C01 thorough VF_C01_ChunkedHash members=3..4 short=1
 //vf:replayE C01 VF_C01_ChunkedHash
 //vf:stub C01 digest.New (chunked-hash run only): a hash that ignores its input and reports 0, the file carries checksum 0 — CRC over 48 MiB is 10^9 interpreted steps, the checksum itself is checked by the other C01/C11 runs
 //vf:assume C01 chunked-hash run: members of 16 MiB or 3 bytes (every combination) in a sparse file image (marker bytes symbolic, the rest zero)
@@ -27,11 +30,15 @@ func (vfNullHash) Reset()                      {}
 type vfImage struct {
 	b   []byte
 	pos int
+	lim int // > 0: a Read returns at most lim bytes (short reads, as a network connection or bufio.Reader gives)
 }
 
 func (r *vfImage) Read(p []byte) (int, error) {
 	if r.pos >= len(r.b) {
 		return 0, io.EOF
+	}
+	if r.lim > 0 && len(p) > r.lim {
+		p = p[:r.lim]
 	}
 	n := copy(p, r.b[r.pos:])
 	r.pos += n
@@ -91,7 +98,9 @@ func VF_C01_ChunkedHash() {
 		}
 	}
 
-	l := NewLoader(&vfImage{b: img})
+	// short=1: reads of at most 20 000 bytes (no divisor of a power of two), short=2: at most 4 MiB + 1
+	lim := []int{0, 20000, 4<<20 + 1}[vfParam("short", 0)]
+	l := NewLoader(&vfImage{b: img, lim: lim})
 	vfAssert(l.Header() == nil, "header")
 	var err error
 	for ci, c := range chunks {
